@@ -97,13 +97,6 @@ func av1WriteLibHdr(t *Toks, h *obu.Header, err error) {
 	av1WriteHdr(t, byte(h.Type), ext, h.HasSizeField, h.Reserved1Bit)
 }
 
-func b2i(b bool) int {
-	if b {
-		return 1
-	}
-	return 0
-}
-
 // ---------------------------------------------------------------------------------------------
 // c13.rt
 
